@@ -196,6 +196,10 @@ func genC07(c *Ctx) {
 				emit(true, fmt.Sprintf("buf c=1 n=%d size=%d sync=0 sg=%d yield=2 ofail=%s script=-", 2*cc+4, cc+1, sg, of))
 			}
 			emit(true, fmt.Sprintf("cmap c=%d n=%d sync=0 mg=0 yield=1 ofail=%s script=-", cc, 3*cc+4, of))
+			// the open fails once the stage is saturated (workers blocked handing over results nobody takes)
+			emit(true, fmt.Sprintf("cmap c=%d n=%d sync=0 mg=0 osat=1 ofail=%s script=-", cc, 5*cc+6, of))
+			emit(true, fmt.Sprintf("nest c=%d n=%d size=%d sync=0 mg=0 osat=1 ofail=%s script=-", cc, 5*cc+10, cc+1, of))
+			emit(true, fmt.Sprintf("buf c=1 n=%d size=%d sync=0 osat=1 ofail=%s script=-", 2*cc+6, cc+1, of))
 		}
 	}
 	// (g) the SAME stream value materialised 2-3 times; a later materialisation ends early while the reader is parked
